@@ -405,7 +405,10 @@ func (s *Session) clientOp(r *rpcState, a *actor, st Step) {
 		}
 		md, err := r.cs.Header()
 		f := errFields(tr.E{"md": wire.MD(md)}, err)
-		if r.hasHT {
+		if r.hasHT && err == nil {
+			// the grpc.Header target is settled once Header() has returned the headers (a Header()
+			// that fails because the context ended is not a completion signal for the target: the
+			// headers frame may still be on its way)
 			f["hdrT"] = wire.MD(r.hdrT)
 		}
 		s.opRet(a, st, f)
